@@ -9,12 +9,14 @@ def hx(b):
 def unhx(s):
     return b"" if s == "-" else bytes.fromhex(s)
 
-def mkcase(steps, pw=None, app=(), tbl=None, default=None, conns=1, trace=True):
+def mkcase(steps, pw=None, app=(), tbl=None, default=None, conns=1, trace=True, handler=None):
     f = ["pw=" + ("-" if pw is None else "h" + hx(pw)),
          "app=" + (",".join(hx(a) for a in app) if app else "-"),
          "tbl=" + (";".join("%s=%s" % (k, v) for k, v in tbl.items()) if tbl else "-"),
          "def=" + (default or "ms(4f4b)"), "conns=%d" % conns, "trace=%d" % (1 if trace else 0),
          "steps=" + (";".join("%d:%s" % (c, op) for c, op in steps) if steps else "-")]
+    if handler:
+        f.insert(0, "handler=" + handler)
     return " ".join(f)
 
 class Obs:
@@ -76,6 +78,14 @@ def align_pair(ie, me):
         x, y = a[i], b[i]
         if y == ERR_MODEL and x.startswith("W:2d") and x.endswith("0d0a"):
             a[i] = b[i] = "W:<error>"
+        elif x.startswith("C:") and y.startswith("C:") and x != y and ":Scan(" in y:
+            # glob patterns are modelled on ASCII only (Go ranges over runes: invalid UTF-8 becomes U+FFFD)
+            mm = re.search(r"match=([0-9a-f]+)", y)
+            if mm and any(c >= 0x80 for c in bytes.fromhex(mm.group(1))):
+                a[i] = re.sub(r"match=[0-9a-f]+", "match=NONASCII", x)
+                b[i] = re.sub(r"match=[0-9a-f]+", "match=NONASCII", y)
+        elif x.startswith("C:") and y.startswith("C:") and x != y and "/" in x and "/" in y:
+            a[i], b[i] = align_rationals(x, y)
         elif x.startswith("C:") and "Expire(" in x and "Expire(" in y:
             mx, my = EXP_RE.search(x), EXPM_RE.search(y)
             if mx and my:
@@ -86,6 +96,25 @@ def align_pair(ie, me):
                     a[i] = EXP_RE.sub("Expire(\\1,T,", x)
                     b[i] = EXPM_RE.sub("Expire(\\1,T,", y)
     return a, b
+
+RAT_RE = re.compile(r"(?<![0-9a-f])-?\d+/\d+")
+
+def align_rationals(x, y):
+    """float arguments: the model carries the exact decimal value of the token, the implementation the float64 strconv
+    produced; they agree when the float64 is the correctly rounded value of the exact rational"""
+    from fractions import Fraction
+    rx, ry = RAT_RE.findall(x), RAT_RE.findall(y)
+    if not rx or len(rx) != len(ry) or RAT_RE.sub("R", x) != RAT_RE.sub("R", y):
+        return x, y
+    for a, b in zip(rx, ry):
+        fa, fb = Fraction(a), Fraction(b)
+        if fa != fb:
+            try:
+                if Fraction(float(fb)) != fa:
+                    return x, y
+            except OverflowError:
+                return x, y
+    return RAT_RE.sub("R", x), RAT_RE.sub("R", y)
 
 def diff_pos(a, b):
     for i in range(max(len(a), len(b))):
